@@ -68,6 +68,9 @@ class EECC(Network):
         for i, c in enumerate(C):
             C[i] = sorted(c)
 
+        # rows that differed only in vertex order are the same clique
+        C = [c for i, c in enumerate(C) if c not in C[:i]]
+
         return sorted(
             C, key=lambda x: (-len(x), x[0], x[1]) if len(x) > 1 else (-len(x), x[0], 0)
         )
